@@ -7,8 +7,12 @@ import re
 RULE = ("[xml] label texts over ASCII, the markup characters & < >, quotes, blanks at the ends, Latin-1, BMP and astral code "
         "points, combining marks and long mixed strings; the bytes between <text class=\"label-text\" ...> and </text> of "
         "the SVG export must be the model's serialisation of the datum's text (named entities, decimal character references, "
-        "everything else unchanged) and an XML parser must read the datum's text back. Non-trivial = a text that needs escaping.")
-ALPH = ["a", "Z", " ", "&", "<", ">", "\"", "'", ";", "#", "&amp;", "&#38;", "é", "ß", "€", "中", "文", "😀", "𝔘",
+        "everything else unchanged) and an XML parser must read the datum's text back. Texts are sequences of XML characters "
+        "without carriage returns (tab, newline, U+0020..U+D7FF, U+E000..U+FFFD, astral planes): C0 controls, surrogates and "
+        "U+FFFE/FFFF cannot occur in a well-formed XML document at all, and every XML parser turns a carriage return into a "
+        "newline - ElementTree writes all of these raw, so for such texts no SVG writer built on it can be read back verbatim "
+        "(outside the documented domain; the model's own reader xml_read does return them). Non-trivial = a text that needs escaping.")
+ALPH = ["a", "Z", " ", "\t", "\n", "&", "<", ">", "\"", "'", ";", "#", "&amp;", "&#38;", "é", "ß", "€", "中", "文", "😀", "𝔘",
         "é", " ", "x", "1", "-", "​", "א", "�", "]]>", "<!--", "\\", "%", "$"]
 
 
